@@ -27,6 +27,7 @@ META = {
     'technique': 'static analysis: effect inventory over the call-graph cone, receiver-mutation taint on value parameters, '
                  'forbidden-call reachability, guard facts',
 }
+META['text'] += " Round 5: (c) only the determinism facts of the sort-key model are selected; (d) the immutability model includes the scaled documents; (e) a body read in a helper is judged at the helper's call sites."
 
 ENV_CALLS = {'time.time', 'time.monotonic', 'time.perf_counter', 'datetime.now', 'datetime.utcnow', 'datetime.today',
              'random.random', 'random.choice', 'random.shuffle', 'random.randint', 'os.getenv', 'os.environ.get',
